@@ -18,10 +18,10 @@ RULE = ("cases = (method, data kind, N in 1..4, a sample of batch sizes from {1.
 
 WB = ["Saliency", "GradientInput", "IntegratedGradients", "SmoothGrad", "SquareGrad", "VarGrad", "DeconvNet",
       "GuidedBackprop", "GradCAM", "GradCAMPP"]
-BB = ["Occlusion", "Sobol", "Hsic", "HsicEstimatorBatch", "Lime", "KernelShap"]
+BB = ["Occlusion", "Sobol", "Hsic", "HsicEstimatorBatch", "Lime", "LimeCosine", "KernelShap"]
 MT = ["Deletion", "Insertion", "MuFidelity"]
 IMG_ONLY = {"GradCAM", "GradCAMPP", "Sobol", "Hsic", "HsicEstimatorBatch"}
-DETERMINISTIC = set(WB) | {"Occlusion", "Sobol", "Hsic", "HsicEstimatorBatch", "Lime"}
+DETERMINISTIC = set(WB) | {"Occlusion", "Sobol", "Hsic", "HsicEstimatorBatch", "Lime", "LimeCosine"}
 _MODELS = {}
 
 
@@ -57,7 +57,7 @@ def lime_pertub(nf, ns):
 
 
 def workload(name, n):
-    return {"IntegratedGradients": 4, "SmoothGrad": 3, "SquareGrad": 3, "VarGrad": 3, "Lime": 12, "KernelShap": 40,
+    return {"IntegratedGradients": 4, "SmoothGrad": 3, "SquareGrad": 3, "VarGrad": 3, "Lime": 12, "LimeCosine": 12, "KernelShap": 40,
             "Sobol": 4 * 6, "Hsic": 8, "HsicEstimatorBatch": 8, "MuFidelity": 8, "Deletion": 1, "Insertion": 1,
             "Occlusion": 6}.get(name, 1) * n
 
@@ -81,6 +81,9 @@ def build(name, model, bs, shape):
         return A.HsicAttributionMethod(model, grid_size=2, nb_design=8, batch_size=64, estimator_batch_size=bs)
     if name == "Lime":
         return A.Lime(model, batch_size=bs, nb_samples=12, pertub_func=lime_pertub,
+                      map_to_interpret_space=None if len(shape) != 3 else (lambda inp: _grid_map(shape)))
+    if name == "LimeCosine":
+        return A.Lime(model, batch_size=bs, nb_samples=12, pertub_func=lime_pertub, distance_mode="cosine", kernel_width=0.5,
                       map_to_interpret_space=None if len(shape) != 3 else (lambda inp: _grid_map(shape)))
     if name == "KernelShap":
         return A.KernelShap(model, batch_size=bs, nb_samples=40,
@@ -112,7 +115,7 @@ def run_case(ctx, d):
         additive = name in ("MuFidelity", "KernelShap")
         model = PolyModel(np.random.default_rng(d["model_seed"]), nflat, nc=2, quad=0 if additive else 3)
     extra = {}
-    if name in ("Lime", "KernelShap") and kind == "img":
+    if name in ("Lime", "LimeCosine", "KernelShap") and kind == "img":
         extra["ref_value"] = np.zeros(shape[-1], np.float32)
 
     def seeded(fn):
@@ -152,7 +155,7 @@ def run_case(ctx, d):
     wl = workload(name, n)
     ctx.case(d, (n >= 2 or min(d["bs"]) < wl) and float(np.ptp(ref)) > 0 or name == "MuFidelity")
     ctx.count("method", name)
-    tol = dict(rtol=2e-4, atol=2e-5) if name in ("KernelShap", "Lime", "MuFidelity", "Hsic", "HsicEstimatorBatch", "Sobol") else dict(rtol=1e-5, atol=1e-6)
+    tol = dict(rtol=2e-4, atol=2e-5) if name in ("KernelShap", "Lime", "LimeCosine", "MuFidelity", "Hsic", "HsicEstimatorBatch", "Sobol") else dict(rtol=1e-5, atol=1e-6)
     for bs in d["bs"]:
         if isinstance(model, PolyModel):
             model.calls = []
